@@ -23,6 +23,23 @@ def generate(ctx):
             ('a', []), ('o', []), ('a', [('u', 1)]), ('a', [('i', 1)]), ('o', [(b'k', ('a', [('n',)]))]), ('o', [(b'k', ('a', [('b', False)]))]),
             ('d', gen.float_to_bits(-0.0)), ('d', 0), ('u', 300)]
     ctx.trials = []
+    # wide arrays (an ordered set that starts as a small vector, a hash threshold ...): 16..300 distinct elements with late
+    # repeats of early ones, against long and short second lists
+    for w in (15, 16, 17, 18, 32, 33, 64, 100, 300):
+        firsts = [('u', i) if i % 3 else ('s', ('s%d' % i).encode()) for i in range(w)]
+        a1 = ('a', firsts + [firsts[0], firsts[w // 2], firsts[-1], firsts[1]])
+        a2 = ('a', firsts + firsts)
+        a3 = ('a', [firsts[i % 7] for i in range(w)] + firsts)
+        bs = [('a', firsts[::2]), ('a', firsts[::-1] + firsts[:3]), ('a', [firsts[0]] * (w + 2)), ('a', []), firsts[3]]
+        for a in (a1, a2, a3):
+            for b in bs:
+                ea, eb = gen.hexarg(gen.enc(a)), gen.hexarg(gen.enc(b))
+                ids = [ctx.add('array_distinct %s' % ea).id, ctx.add('array_intersection %s %s' % (ea, eb)).id,
+                       ctx.add('array_except %s %s' % (ea, eb)).id, ctx.add('array_overlap %s %s' % (ea, eb)).id]
+                ctx.trials.append((a, b, ids))
+                ids = [ctx.add('array_distinct %s' % eb).id, ctx.add('array_intersection %s %s' % (eb, ea)).id,
+                       ctx.add('array_except %s %s' % (eb, ea)).id, ctx.add('array_overlap %s %s' % (eb, ea)).id]
+                ctx.trials.append((b, a, ids))
     for _ in range(ctx.scale(1200, 50000)):
         c = r.random()
         base = pool + [ctx.g.value(depth=2, finite=False) for _ in range(3)]
